@@ -790,10 +790,14 @@ func (m *mctx) call(c *ast.CallExpr) string {
 				if len(c.Args) == 2 && c.Ellipsis.IsValid() {
 					return "(" + m.expr(c.Args[0]) + " ++ " + m.atom(c.Args[1]) + ")"
 				}
-				if len(c.Args) != 2 {
-					bad("append with other than one element")
+				if len(c.Args) < 2 {
+					bad("append without elements")
 				}
-				return "(" + m.expr(c.Args[0]) + " ++ [" + m.expr(c.Args[1]) + "])"
+				var els []string
+				for _, a := range c.Args[1:] {
+					els = append(els, m.expr(a))
+				}
+				return "(" + m.expr(c.Args[0]) + " ++ [" + strings.Join(els, ", ") + "])"
 			case "make":
 				if tv, ok := m.g.info.Types[c.Args[0]]; ok {
 					if _, isMap := tv.Type.Underlying().(*types.Map); isMap {
